@@ -16,6 +16,18 @@ CHECKS = {
                 text='CTLS.modelcheck incl. clone, fresh-atom labelling, CTL fast path, TypeError->LTL fallback and the E=not A not branch executed symbolically; per formula one merged run covers all total structures with n<=2 (3 thorough); z3 proves equality with the CTL* product oracle circuit. ~280 formulas with quantifier nesting <=2.',
                 note='bounded: n<=2 (3), 2 atoms, formulas from stated sets (enumeration of programs); vacuity twin: some runs must encode the LTL fallback',
                 tech=SOLVER),
+    'C04': dict(cat='model_checking', ref='4/C04',
+                text='No oracle: two or three implementation runs share one symbolic structure and z3 proves their result vectors equal -- CTL vs CTLS on ~120 CTL formulas (n=3), LTL vs CTL vs CTLS on the common fragment (n=2), text vs object input, and 16 CTL / 7 LTL law schemas (complement, and/or/implies, A g = not E not g, fixpoint expansions) over formula pairs (f,g) as identities between result vectors.',
+                note='bounded: n<=3 (2 where the tableau runs); formula pairs from stated sets; catches an implementation and the oracle of C01-C03 being wrong in the same way',
+                tech='symbolic execution of the real source (verif.see) + SMT (z3 5.1) equivalence between implementation circuits'),
+    'C06': dict(cat='model_checking', ref='4/C06',
+                text='The exactness obligations of C01-C03 re-decided under varied presentation: all 6 orders of presenting/iterating 3 states, states renamed to strings/tuples/mixed types, atoms renamed, seeded global orders of formula sets (tie order of the closure sort; models the hash seed), and an unreachable extra state; the oracle is presentation-independent, so unsat for all is invariance.',
+                note='order model = one global order per run (per-site independent orders outside); PYTHONHASHSEED as a process setting is not what the solver decides -- it is modelled through the order of sets; sample of 4 (24 thorough) formula-set orders',
+                tech=SOLVER + ', iteration order forked'),
+    'C07': dict(cat='model_checking', ref='4/C07',
+                text='Heap obligations on the symbolic runs of all three checkers (with/without F, text/object): z3 proves every bit of the caller\'s structure (successor sets, label sets incl. new atoms, S0, object identities) equals its pre-call snapshot; result shares no set with K; formula prints unchanged; call / call-on-other-structure-with-same-formula / call returns equal vectors; call / mutate result / call returns equal vectors.',
+                note='bounded: n<=3; histories of length 3; writes to module globals or class attributes would make the run inconclusive rather than be modelled',
+                tech=SOLVER + ' (heap snapshot equality)'),
     'C12': dict(cat='model_checking', ref='4/C12',
                 text='compute_SCCs is executed symbolically from its source on a graph whose edge bits are unknowns: one merged run per node order covers all 2^(n*n) digraphs (n<=4 quick; n=5 with 9 forked bits and all 24 orders at n=4 thorough). The solver proves partition + mutual-reachability equivalence against a Warshall oracle circuit, absence of exceptions and complete loop unrolling; sat models are replayed natively.',
                 note='bounded: n<=4 (5 thorough); one global iteration order per run; evaluator and simplifier trusted but audited (rewrite lemmas re-proved, n=2 raw run, translator validation vs native on 150 random graphs)',
@@ -31,6 +43,10 @@ CHECKS = {
     'C15': dict(cat='model_checking', ref='4/C15',
                 text='get_fair_states and CTL/CTLS.modelcheck(K,f,F) executed symbolically with symbolic fairness sets (|F|<=2) and compared by z3 with an Emerson-Lei fair-semantics oracle. Holds and is decided: get_fair_states is a subset of the fair states on every input; equality and modelcheck==fair semantics outside the classes of the four OPEN known findings D7-D10 (class predicates are conjoined negated to the violation query; each listed witness is re-found natively and printed as KNOWN-FINDING); F=[] and F=[S] equal the unconstrained answer; no exception and K unchanged also inside the classes.',
                 note='bounded: n<=3, |F|<=2, ~150 CTL formulas without constants; genuine defects D7-D10 are recorded, not repaired (reasons in known_findings.json / DESIGN.md section 5); /repo at fix commit 3d1a560',
+                tech=SOLVER),
+    'C19': dict(cat='model_checking', ref='4/C19',
+                text='On symbolic runs over heterogeneous presentations (states 0/\'1\'/(2,), operator-like state names, label sets polluted with ints, tuples, operator names, \'fair\' and the fresh names the code invents, formula atoms absent from K): z3 proves the result is a set of K\'s states equal to the reference, no exception guard is satisfiable, and a second call after emptying/polluting the first result is unchanged; identity walk shows the result is no object of K.',
+                note='bounded: n<=3; presentations are concrete, transitions/labels symbolic; RecursionError examined natively to depth 60 only',
                 tech=SOLVER),
 }
 ALL = ['C%02d' % i for i in range(1, 20)]
